@@ -174,3 +174,97 @@ fn boundary_constraints_bounded() {
     }
     println!("NB-RESULT name=boundary_constraints_bounded cases={cases}");
 }
+
+// ------------------------------------------------------------------------------------------------
+// Transition exemptions (air/src/air/context.rs set_num_transition_exemptions, air/src/air/divisor.rs
+// from_transition): a number of exemptions is accepted exactly when it is at least one, at most
+// trace_length / 2 + 1, and the transition quotient (evaluation degree of every constraint minus the degree
+// trace_length - k of the divisor) still fits the constraint evaluation domain, i.e. is at most
+// ce_domain_size - 1; the divisor built for an accepted k vanishes on exactly the first trace_length - k
+// steps of the trace domain.
+// Bound: trace lengths 8..64, every k in 0..=trace_length, constraint degrees 1..=9 alone and in pairs, and
+// degrees with periodic cycles of length 2..trace_length.
+
+fn eval_degree(base: usize, cycles: &[usize], n: usize) -> usize {
+    base * (n - 1) + cycles.iter().map(|c| (n / c) * (c - 1)).sum::<usize>()
+}
+
+fn check_exemptions(n: usize, degs: &[(usize, Vec<usize>)], cases: &mut u64) {
+    let options = ProofOptions::new(32, 16, 0, FieldExtension::None, 4, 31);
+    let make = || {
+        let d: Vec<TransitionConstraintDegree> = degs
+            .iter()
+            .map(|(b, c)| if c.is_empty() { TransitionConstraintDegree::new(*b) } else { TransitionConstraintDegree::with_cycles(*b, c.clone()) })
+            .collect();
+        AirContext::<BaseElement>::new(TraceInfo::new(2, n), d, 1, options.clone())
+    };
+    let ctx = match catch_unwind(AssertUnwindSafe(make)) {
+        Ok(c) => c,
+        Err(_) => return, // this degree set needs a blowup larger than 16: not a valid context
+    };
+    let ce = ctx.ce_domain_size();
+    for k in 0..=n {
+        *cases += 1;
+        let fits = degs.iter().all(|(b, c)| eval_degree(*b, c, n) + k <= ce - 1 + n);
+        let expected = k >= 1 && k <= n / 2 + 1 && fits;
+        let got = catch_unwind(AssertUnwindSafe(|| make().set_num_transition_exemptions(k)));
+        match got {
+            Ok(c2) => {
+                if !expected {
+                    fail(format!("set_num_transition_exemptions({k}) accepted for trace length {n}, degrees {degs:?}, ce domain {ce}: the quotient does not fit (or the count is out of range)"));
+                }
+                if c2.num_transition_exemptions() != k {
+                    fail(format!("num_transition_exemptions() == {} after set_num_transition_exemptions({k})", c2.num_transition_exemptions()));
+                }
+            },
+            Err(_) => {
+                if expected {
+                    fail(format!("set_num_transition_exemptions({k}) refused for trace length {n}, degrees {degs:?}, ce domain {ce} although the quotient fits"));
+                }
+            },
+        }
+    }
+}
+
+#[test]
+fn transition_exemptions_bounded() {
+    std::panic::set_hook(Box::new(|_| {}));
+    let mut cases = 0u64;
+    for n in [8usize, 16, 32, 64] {
+        for b in 1..=9usize {
+            check_exemptions(n, &[(b, vec![])], &mut cases);
+            for b2 in 1..=9usize {
+                check_exemptions(n, &[(b, vec![]), (b2, vec![])], &mut cases);
+            }
+            let mut c = 2;
+            while c <= n {
+                check_exemptions(n, &[(b, vec![c])], &mut cases);
+                check_exemptions(n, &[(b, vec![c, 2])], &mut cases);
+                check_exemptions(n, &[(1, vec![]), (b, vec![c])], &mut cases);
+                c *= 2;
+            }
+        }
+        // the divisor of every admissible k vanishes on exactly the first n - k steps
+        let g = BaseElement::get_root_of_unity(n.trailing_zeros());
+        for k in 1..=n / 2 + 1 {
+            let d = winter_air::ConstraintDivisor::<BaseElement>::from_transition(n, k);
+            if d.exemptions().len() != k || d.degree() != n - k {
+                fail(format!("from_transition({n}, {k}): {} exemptions, degree {}", d.exemptions().len(), d.degree()));
+            }
+            let mut x = BaseElement::ONE;
+            for step in 0..n {
+                cases += 1;
+                // the exemption product alone: the quotient is 0 * inv(0) on exempt steps
+                let exempt_zero = d.evaluate_exemptions_at(x) == BaseElement::ZERO;
+                if !exempt_zero && d.evaluate_at(x) != BaseElement::ZERO {
+                    fail(format!("from_transition({n}, {k}): divisor does not vanish on the non-exempt step {step}"));
+                }
+                if exempt_zero != (step >= n - k) {
+                    fail(format!("from_transition({n}, {k}): step {step} exempt = {exempt_zero}, expected {}", step >= n - k));
+                }
+                x *= g;
+            }
+        }
+    }
+    println!("NB-RESULT name=transition_exemptions_bounded cases={cases}");
+}
